@@ -130,8 +130,19 @@ type Event struct {
 	Seen  []SeenRec `json:"seen"`
 	Snap  Snap      `json:"snap"`
 	Raw   string    `json:"raw"`
+	Bytes []int     `json:"bytes"`
 	Txt   string    `json:"txt"`
 	Num   int       `json:"num"`
+	Size  int       `json:"size"`
+}
+
+// IntBytes renders bytes as a JSON-friendly int slice (the TLA+ side works on sequences of integers).
+func IntBytes(b []byte) []int {
+	out := make([]int, len(b))
+	for i, c := range b {
+		out[i] = int(c)
+	}
+	return out
 }
 
 func (e *Event) norm() {
@@ -143,6 +154,9 @@ func (e *Event) norm() {
 	}
 	if e.Dups == nil {
 		e.Dups = []int{}
+	}
+	if e.Bytes == nil {
+		e.Bytes = []int{}
 	}
 	for len(e.Dups) < len(e.Slots) {
 		e.Dups = append(e.Dups, -1)
